@@ -122,7 +122,8 @@ def validation(ctx):
         if d and reg_p in d.params and "measurement_deps" not in d.attr_reads:
             got_reg = True
         if d and "measurement_deps" in d.attr_reads and op_p in d.params:
-            got_deps = True
+            # ... the RegRef OBJECTS themselves (identity is what _test_regrefs compares), not their indices
+            got_deps = "ind" not in d.attr_reads
     ctx.ob(rule, f.site, got_reg, "" if got_reg else "self._test_regrefs(reg) does not dominate self.circuit.append: "
            "deleted / unknown / duplicate subsystems are accepted", role="dominate:test-reg", line=f.node.lineno)
     ctx.ob(rule, f.site, got_deps, "" if got_deps else "self._test_regrefs(op.measurement_deps) does not dominate "
